@@ -104,7 +104,8 @@ def _b_body(d, crlf, final_nl):
 
 
 OPTSETS = ({}, {'encoding': kp.Encoding.eKern}, {'spine_types': ['**kern'], 'include': kp.BEKERN_CATEGORIES, 'encoding': kp.Encoding.bEkern},
-           {'exclude': [TC.DECORATION], 'spine_ids': [0]}, {'from_measure': 1, 'to_measure': 1, 'spine_types': ['**kern']})
+           {'exclude': [TC.DECORATION], 'spine_ids': [0]}, {'from_measure': 1, 'to_measure': 1, 'spine_types': ['**kern']},
+           {'spine_ids': []}, {'to_measure': 0}, {'include': []}, {'spine_types': [], 'encoding': kp.Encoding.eKern}, {'from_measure': 0, 'to_measure': 1})
 DEPTHS = ((), ('x',), ('x', 'y'), ('x', 'y', 'z'))
 
 
@@ -126,6 +127,10 @@ def _c_body(d, o, depth, exists, as_path):
         if exists:
             os.makedirs(sub, exist_ok=True)
         path = os.path.join(sub, 'out.krn')
+        if exists and isinstance(exp, str):
+            # the target already holds the same text with other line ends: it must be replaced by exactly what dumps returns
+            with open(path, 'w', encoding='utf-8', newline='') as f:
+                f.write(exp.replace('\n', '\r\n'))
         from pathlib import Path
         target = Path(path) if as_path else path
         try:
@@ -235,8 +240,10 @@ def _d_body(layout, order, crlf):
             # ekern -> kern -> ekern round trip through the other converter
             back = outs[p][:-5] + '.back.ekrn'
             shutil.copy(outs[p], back)
-            _main(['--ekern2kern', '--input_path', back, '--verbose', '0'])
             kpath = back[:-5] + '.krn'
+            with open(kpath, 'w', encoding='utf-8', newline='') as f:        # an older copy with other line ends is in the way
+                f.write(kp.get_kern_from_ekern(exp).replace('\n', '\r\n'))
+            _main(['--ekern2kern', '--input_path', back, '--verbose', '0'])
             with open(kpath, encoding='utf-8', newline='') as f:
                 ktext = f.read()
             check(ktext == kp.get_kern_from_ekern(exp), f'{lay}: --ekern2kern wrote {ktext!r}, get_kern_from_ekern gives {kp.get_kern_from_ekern(exp)!r}')
@@ -286,10 +293,10 @@ OBLIGATIONS = [
        enumerated='document, line ending, final newline', realized_at=['open() / csv.reader in Importer.import_file (real temporary files)'],
        bounds={'quick': '5 documents (one with blank lines everywhere) x {LF, CRLF} x {final newline, none}', 'thorough': 'same'}),
     Ob(id='C20.c', fn=ob_c, title='dump writes exactly what dumps returns, creating 0-3 missing directory levels',
-       shard_of=lambda d, o, depth, exists, as_path: o, shards={'quick': 5, 'thorough': 5}, budget_s={'quick': 150, 'thorough': 600},
+       shard_of=lambda d, o, depth, exists, as_path: o, shards={'quick': 10, 'thorough': 10}, budget_s={'quick': 150, 'thorough': 600},
        witnesses=[{'d': 0, 'o': 1, 'depth': 2, 'exists': False, 'as_path': False}], min_confirmed=200,
-       enumerated='document, option set (5), directory depth (0-3), directory pre-existing, str / Path', realized_at=['_io._write (real temporary files)'],
-       bounds={'quick': '5 x 5 x 4 x 2 x 2', 'thorough': 'same'}),
+       enumerated='document, option set (10, incl. falsy values), directory depth (0-3), directory and a CRLF copy of the target pre-existing, str / Path', realized_at=['_io._write (real temporary files)'],
+       bounds={'quick': '5 x 10 x 4 x 2 x 2', 'thorough': 'same'}),
     Ob(id='C20.d', fn=ob_d, title='--kern2ekern (single file, explicit output, directory, recursive) writes what the API produces; converter round trip',
        shard_of=lambda layout, order, crlf: layout + 5 * order, shards={'quick': 15, 'thorough': 15}, budget_s={'quick': 150, 'thorough': 600},
        witnesses=[{'layout': 2, 'order': 0, 'crlf': False}], min_confirmed=40,
